@@ -69,6 +69,27 @@ def run_e2e(args):
                     except Exception as e:  # noqa: BLE001
                         r["ifaces"][f"{iface}/{shuffle}"] = f"{type(e).__name__}: {str(e)[:100]}"
             rec["runs"].append(r)
+        # the Rust interface with several passes alive at once, each with its own selection (A ends while B is mid-pass, then C opens)
+        if I.supports("rust", a["fmt"], a["comp"]) and len(infos) >= 3:
+            codes = sorted({int(si.custom_metadata.get("k", 0)) for si in infos})
+            sels = {"A": {"shards": 1}, "B": {"shards": 2},
+                    "C": {"shard_filter": (lambda si, c=codes[-1]: int(si.custom_metadata.get("k", 0)) == c)}}
+            want = {nm: [sp.ident(e) for e in ds.as_numpy_iterator(split="train", repeat=False, shuffle=0, **kw)] for nm, kw in sels.items()}
+            got = {"A": [], "B": [], "C": []}
+            def rust(nm):
+                return ds.as_numpy_iterator_rust(split="train", repeat=False, shuffle=0, file_parallelism=2, **sels[nm])
+            try:
+                A = rust("A"); got["A"].append(sp.ident(next(A)))
+                B = rust("B"); got["B"].append(sp.ident(next(B)))
+                got["A"] += [sp.ident(e) for e in A]; del A
+                its = {"B": B, "C": rust("C")}; live = ["B", "C"]
+                while live:
+                    for nm in list(live):
+                        try: got[nm].append(sp.ident(next(its[nm])))
+                        except StopIteration: live.remove(nm)
+                rec["overlap"] = {"got": got, "want": want}
+            except BaseException as e:  # noqa: BLE001
+                rec["overlap"] = {"got": got, "want": want, "error": f"{type(e).__name__}: {str(e)[:150]}"}
         out.append(rec)
         shutil.rmtree(root, ignore_errors=True)
     return out
@@ -144,6 +165,15 @@ def run(ctx):
                 elif got != exp_ids:
                     ctx.report({"kind": "iface-selection", "iface": iface, "option": sig_opt, "format_tfrec": r["case"]["fmt"] == "tfrec", "nested_metadata": nested},
                                f"{r['case']['fmt']} {key} with {opt}: yields {str(got)[:120]} but the selected shards {want} hold {exp_ids}", {"case": r["case"], "opt": opt, "got": got})
+    for r in recs:
+        ov = r.get("overlap")
+        if ov is None: continue
+        nruns += 1
+        if ov.get("error") or ov["got"] != ov["want"]:
+            bad = next((k for k in ("A", "B", "C") if ov["got"][k] != ov["want"][k]), "?")
+            ctx.report({"kind": "iface-selection", "iface": "rust", "option": "overlapping-passes"},
+                       f"three overlapping Rust passes with different selections: pass {bad} yields {ov['got'].get(bad)} instead of {ov['want'].get(bad)} {ov.get('error', '')}",
+                       {"case": r["case"], "overlap": ov})
     reps = lean.driver(reqs)
     corr_bad = []
     for (r, run_), rep in zip(meta, reps):
